@@ -136,7 +136,7 @@ def check_sweep(ctx, leaf, path, variant):
                 if nd.kind == 'setext' and in_quote:
                     nd.kind = 'atx'
                     nd.closing = ''
-                    nd.inl = [('text', w) for w in gen.inl_plain(nd.inl).split()[:4]] or [('text', 'title')]   # one line, no nested breaks
+                    nd.inl = [('text', w) for w in gen.inl_plain(nd.inl).split() if w.isalpha()][:4] or [('text', 'title')]   # one line, no nested breaks
                 if nd.kind == 'quote':
                     fix(nd.blocks, True)
                 elif nd.kind == 'list':
